@@ -41,6 +41,28 @@ def _make_sim_case(rng, kind, space_kind, max_cells, chem, reactions, max_steps)
     return c
 
 
+def add_multi_edges(rng, desc):
+    """graphs as the engines must take them (and as grid_to_graph makes them for periodic axes of length 1 and 2): self-loops and
+    parallel edges.  Only for checks that drive the engines alone - the Python kinetics functions see one edge per pair of nodes."""
+    sp = desc["space"]
+    if sp["type"] != "graph":
+        return desc
+    import copy
+    n = len(sp["nodes"])
+    if rng.random() < 0.5:
+        for _ in range(rng.randint(1, 2)):
+            i = rng.randrange(n)
+            tmpl = copy.deepcopy(sp["edges"][0]) if sp["edges"] else {"surface": {"bare": 1.0}, "distance": {"bare": 1.0}, "units": list(sp["units"])}
+            tmpl.update({"i": i, "j": i})
+            sp["edges"].insert(rng.randrange(len(sp["edges"]) + 1), tmpl)
+    if sp["edges"] and rng.random() < 0.4:
+        e = copy.deepcopy(rng.choice(sp["edges"]))
+        if rng.random() < 0.5:
+            e["i"], e["j"] = e["j"], e["i"]
+        sp["edges"].append(e)
+    return desc
+
+
 def _si(q, owner, dim):
     v, sy, d = sysgen.qty_resolved(q, owner, dim)
     return Fr(v) * si.si_scale(sy, d)
@@ -128,7 +150,8 @@ def engine_units(c):
 def build_script(strengths, c, sanitize=False):
     U = strengths.units
     state = U.UnitArray(list(c["state"]), U.Units(sysgen.py_sys(U, c["state_units"]), U.UnitsDimensions(quantity=1)))
-    system = sysgen.build_system(strengths, c["desc"], state=state, chemostats=[int(b) for b in c["chs"]])
+    kw = {} if c.get("chs_from_species") else {"chemostats": [int(b) for b in c["chs"]]}     # else: the species' own flags decide
+    system = sysgen.build_system(strengths, c["desc"], state=state, **kw)
     us = sysgen.py_sys(U, c["units"])
     return strengths.RDScript(system=system, t_sample=list(c["t_sample"]), time_step=c["dt"], t_max=c["t_max"],
                               sampling_policy=c["policy"], sampling_interval=c["interval"], rng_seed=c["seed"],
